@@ -281,6 +281,28 @@ def c01_6(ctx):
     s, n = sym.decisive_set(fr, U, E) if fr is not False else (E, 0)
     ctx.check(s == iv(0, 0), "zero-hash-refused", ctx.where(f), "sign_with_recid: hash values refused are %s, expected exactly {0}" % s.fmt())
     _refcheck(ctx, GEN, "Generator.sign_with_recid", "gn_sign_with_recid", "signing-equation")
+    # the retry guard looks at the VALUES THAT ARE RETURNED: r and s as handed out are the terms compared with 0 (a guard on the
+    # unreduced s lets a non-zero multiple of the order through, and the signature carries s = 0)
+    w2 = sym.walk(ctx, f)
+    rets = [e for e in w2.exits if e.kind == "return" and isinstance(e.value, ast.Tuple) and len(e.value.elts) >= 2]
+    if not rets:
+        ctx.undecided("retry-guard-on-returned-values", ctx.where(f), "sign_with_recid returns no (r, s, ..) tuple this rule can read")
+    for e in rets:
+        v = e.value
+        ops = [o for o in (gi.f_opaques(e.cond) if e.cond not in (True, False) else []) if isinstance(o, str)]
+        for nm, elt in (("r", v.elts[0]), ("s", v.elts[1])):
+            t = norm(elt)
+            zero_tests = [o for o in ops if o in ("0 == %s" % t, "%s == 0" % t)]
+            if zero_tests and all(sym.entails(e.cond, ("not", ("op", o))) for o in zero_tests):
+                ctx.ok("retry-guard-on-returned-values:%s" % nm, sample={"returned": t[:70], "guard": zero_tests[0][:80]})
+                continue
+            tested = [o[5:] for o in ops if o.startswith("0 == ")] + [o[:-5] for o in ops if o.endswith(" == 0")]
+            inner = [x for x in tested if x != t and len(x) > 8 and (t.startswith(x + " % ") or t.startswith("(" + x + ") % "))]
+            if inner:
+                ctx.bad("retry-guard-on-returned-values:%s" % nm, ctx.where(f, e.node), "sign_with_recid returns %s = `%s` but its retry guard compares `%s` with 0: the value is reduced AFTER the test, so a non-zero multiple of the order passes the guard and %s = 0 is handed out"
+                        % (nm, t[:80], inner[0][:80], nm))
+            else:
+                ctx.undecided("retry-guard-on-returned-values:%s" % nm, ctx.where(f, e.node), "sign_with_recid returns %s = `%s`; no comparison of that term with 0 found among %s" % (nm, t[:60], [o[:40] for o in ops][:4]))
 
 
 # ------------------------------------------------------------------ C01.7
